@@ -50,6 +50,20 @@ def check_copy(run, eff, f, cls_fields, rule='R4'):
                           'the copy shares mutable data with the original: result.%s aliases %s' % (path, src))
     else:
         run.ok(rule + 'c', f, 'copy independence', '%d reachable field values, none aliases self' % len(atoms))
+    # (d') a field copied under a condition may only be skipped when that very field is absent
+    import ast
+    from ..flow import walk
+    from ..model import norm
+    for st, ctx in walk(f.node):
+        if isinstance(st, ast.Assign) and isinstance(st.targets[0], ast.Attribute) and st.targets[0].attr in cls_fields:
+            fld = st.targets[0].attr
+            if 'self.' + fld not in norm(st.value):
+                continue
+            for t, pol in ctx.conds:
+                others = {n.attr for n in ast.walk(t) if isinstance(n, ast.Attribute) and norm(n.value) == 'self' and n.attr != fld}
+                if others:
+                    run.violation(rule + 'd', f, st, 'the copy of field `%s` is only made when a condition on %s holds: an object that has `%s` but fails '
+                                  'that condition is copied without it' % (fld, ', '.join('self.' + o for o in sorted(others)), fld))
     # (d) faithfulness
     top = {}
     for o in objs:
